@@ -161,6 +161,9 @@ const PATH_TPLS: &[&str] = &[
     "/Catalog/Shirts/@id",
     "/Cart/@id",
     "/CATALOG/@slug",
+    // marker expressions that differ only by the case of an escape class (digits / anything but digits)
+    "/n/@num",
+    "/n/@txt",
 ];
 const QUERIES: &[&str] = &["x=1", "a=1&b=2", "q=test"];
 
@@ -367,6 +370,12 @@ impl RuleGen {
             if t.contains("@any") {
                 markers.push(json!({"name": "any", "regex": ".+?"}));
             }
+            if t.contains("@num") {
+                markers.push(json!({"name": "num", "regex": "\\d+"}));
+            }
+            if t.contains("@txt") {
+                markers.push(json!({"name": "txt", "regex": "\\D+"}));
+            }
             source["path"] = json!(t);
         } else {
             source["path"] = json!(rng.pick_str(PATH_LITS));
@@ -500,6 +509,12 @@ fn instantiate_path(rng: &mut Rng, t: &str) -> String {
     }
     if p.contains("@any") {
         p = p.replace("@any", &rng.pick_str(&["z", "a/b", "blog"]));
+    }
+    if p.contains("@num") {
+        p = p.replace("@num", &rng.pick_str(&["1", "42"]));
+    }
+    if p.contains("@txt") {
+        p = p.replace("@txt", &rng.pick_str(&["ab", "x-y", "Ab"]));
     }
     p
 }
@@ -704,13 +719,17 @@ fn gen_case(rng: &mut Rng, prop: &str, mode: &str, tier: Tier) -> W1Case {
             // stop and reset flags at every relative position; no sampling
             r["rank"] = json!(rng.below(4));
             if rng.chance(2, 3) {
-                let shared = rng.pick_str(&["/a", "/blog/@slug"]);
+                let shared = rng.pick_str(&["/a", "/blog/@slug", "/a", "/blog/@slug", "/a", "/blog/@slug", "/n/@num", "/n/@txt"]);
                 let src = json!({"scheme": Value::Null, "host": Value::Null, "ips": Value::Null, "path": shared, "query": Value::Null, "headers": Value::Null,
                     "methods": Value::Null, "exclude_methods": Value::Null, "response_status_codes": r["source"]["response_status_codes"].clone(),
                     "exclude_response_status_codes": r["source"]["exclude_response_status_codes"].clone(), "sampling": Value::Null});
                 r["source"] = src;
                 if shared.contains("@slug") {
                     r["markers"] = json!([{"name": "slug", "regex": "(?:[a-z]|\\-)+?"}]);
+                } else if shared.contains("@num") {
+                    r["markers"] = json!([{"name": "num", "regex": "\\d+"}]);
+                } else if shared.contains("@txt") {
+                    r["markers"] = json!([{"name": "txt", "regex": "\\D+"}]);
                 } else {
                     r.as_object_mut().unwrap().remove("markers");
                     if let Some(t) = r["target"].as_str() {
